@@ -94,6 +94,8 @@ pub enum Op {
     Detach { slot: u8 },
     Release { o: u8 },
     OpenGate { g: u8 },
+    /// fire every waker ever registered with gate g again (stale wake-ups)
+    Rewake { g: u8 },
     /// wait until op `idx` of (lower-numbered) caller `caller` has returned / ended
     WaitFor { caller: u8, idx: u8, ev: Ev },
     Suspend { o: u8, slot: u8, id: OpId },
@@ -114,6 +116,7 @@ pub enum Op {
 pub enum WOp {
     Yield,
     Open { g: u8 },
+    Rewake { g: u8 },
 }
 
 /// Ops of stream producer tasks (never block)
@@ -268,6 +271,7 @@ pub fn fmt_op(op: &Op) -> String {
         Op::Detach { slot } => format!("f{}.detach()", slot),
         Op::Release { o } => format!("release o{}", o),
         Op::OpenGate { g } => format!("open g{}", g),
+        Op::Rewake { g } => format!("rewake g{}", g),
         Op::WaitFor { caller, idx, ev } => format!("waitfor(c{}[{}].{:?})", caller, idx, ev),
         Op::Suspend { o, slot, id } => format!("#{} f{}=suspend(o{})", id, slot, o),
         Op::AwaitSuspend { slot } => format!("await-suspend f{}", slot),
